@@ -202,6 +202,12 @@ func statements() []Stmt {
 			add("write", "insert_set", q, fmt.Sprintf("INSERT INTO %s SET %sid = 1, %sname = 'a'", t1, cq, cq))
 			add("write", "replace", q, fmt.Sprintf("REPLACE INTO %s (%sid, %sname) VALUES (1, 'a')", t1, cq, cq))
 			add("write", "insert_ondup", q, fmt.Sprintf("INSERT INTO %s (%sid, %sname) VALUES (1, 'a') ON DUPLICATE KEY UPDATE %sname = 'b'", t1, cq, cq, cq))
+			// SET form together with ON DUPLICATE KEY UPDATE, and a multi-row VALUES list with it
+			// (added after seeded change c04-3 was missed: the qualifier clean-up of the SET list
+			// and of the ON DUPLICATE list are separate loops)
+			add("write", "insert_set_ondup", q, fmt.Sprintf("INSERT INTO %s SET %sid = 1, %sname = 'a' ON DUPLICATE KEY UPDATE %sname = 'b'", t1, cq, cq, cq))
+			add("write", "insert_rows_ondup", q, fmt.Sprintf("INSERT INTO %s (%sid, %sname) VALUES (1, 'a'), (2, 'b') ON DUPLICATE KEY UPDATE %sname = 'c'", t1, cq, cq, cq))
+			add("write", "replace_set", q, fmt.Sprintf("REPLACE INTO %s SET %sid = 1, %sname = 'a'", t1, cq, cq))
 			add("write", "update", q, fmt.Sprintf("UPDATE %s SET %sname = 'x' WHERE %sid = 1", t1, cq, cq))
 			add("write", "update_all", q, fmt.Sprintf("UPDATE %s SET %sname = 'x'", t1, cq))
 			add("write", "update_order_limit", q, fmt.Sprintf("UPDATE %s SET %sname = 'x' WHERE %sid > 0 ORDER BY %sid LIMIT 1", t1, cq, cq, cq))
